@@ -48,6 +48,9 @@ def run(ctx, chk):
     O, P = ctx.O, ctx.P
     anchors.check(ctx, chk, ['header_write', 'update_computed', 'reset_base', 'eager_version', 'computed_field',
                              'computed_not_vec_version'])
+    # G8 = F6 an own-version change is noticed at import: the stored vec version is compared for (in)equality
+    from props.c14 import version_equality_test
+    version_equality_test(ctx, chk, "G8")
     # G7 the header is persisted whole: every region write reachable from Header::write starts at offset 0 (a partial
     # rewrite of one field can drop a pending change of another, e.g. the computed version)
     hw = "vecdb::base::header::Header::write"
